@@ -3790,6 +3790,22 @@ func newStorageCapabilityControllerSetTargetFunction(
 			capabilityID,
 		)
 
+		// Persist the new target path:
+		// Update the controller and write it back to the account's capability ID to controller storage map.
+		// Only updating the controller in memory is not sufficient,
+		// the storage map is not aware of the change and might not get written.
+		controller.TargetPath = newTargetPathValue
+
+		existed := context.WriteStored(
+			address,
+			common.StorageDomainCapabilityController,
+			interpreter.Uint64StorageMapKey(capabilityID),
+			controller,
+		)
+		if !existed {
+			panic(errors.NewUnreachableError())
+		}
+
 		addressValue := interpreter.AddressValue(address)
 
 		handler.EmitEvent(context, StorageCapabilityControllerTargetChangedEventType, []interpreter.Value{
